@@ -35,6 +35,15 @@ MODE_COQ = {'plain': 'MPlain', 'ctx': 'MCtx', 'with': 'MWith'}
 # issuing one API call on the real object
 # ------------------------------------------------------------------------------
 
+class HBase(BaseException):
+    """A harness exception that is NOT an Exception (like CancelledError / GeneratorExit / KeyboardInterrupt)."""
+
+
+def _block_exceptions():
+    import asyncio
+    return [ValueError, HBase, asyncio.CancelledError]
+
+
 class Caller:
     """Per-run bookkeeping of context managers, so that a release of a lock entered through
     acquire_ctx()/with is issued as that context manager's __exit__ (which is release())."""
@@ -80,9 +89,13 @@ class Caller:
                 if self.nexit % 2:
                     r = cm.__exit__(None, None, None)       # contextmanager: False, FileLock: None
                 else:
-                    # the protected block raised: __exit__ / the generator's finally must do the same release()
-                    e = ValueError('harness: the with-block is left through an exception')
-                    r = cm.__exit__(ValueError, e, None)
+                    # the protected block raised: __exit__ / the generator's finally must do the same release() —
+                    # whatever the class of the exception: an ordinary Exception, or a BaseException that is not one
+                    # (a harness class, asyncio.CancelledError); the harness "catches" it right here, i.e. inside
+                    # the enclosing block when the context managers are nested
+                    cls = _block_exceptions()[(self.nexit // 2) % 3]
+                    e = cls('harness: the with-block is left through an exception')
+                    r = cm.__exit__(cls, e, None)
                 return 'N' if (r is None or r is False) else 'EX'
             return RES.get(lk.release(), 'EX')
         except TimeoutError:
